@@ -392,6 +392,30 @@ def leaf_pool(rng, n, dt):
     return pool
 
 
+def leaf_pool2(rng, dt, K=2, N=3):
+    """operators on (K, N) arrays, compared through their K*N x K*N matrices: batched circular
+    convolution (filter bank and shared filter, ndims=1), differences along either axis, generic"""
+    cplx = is_complex(dt)
+    shp = (K, N)
+    d = rand_dyadic_np(rng, shp, cplx=cplx).astype(dt)
+    hb = rand_dyadic_np(rng, (K, 2), cplx=cplx).astype(dt)
+    hs = rand_dyadic_np(rng, (2,), cplx=cplx).astype(dt)
+    h2 = rand_dyadic_np(rng, (2, 2), cplx=cplx).astype(dt)
+    s = (0.5 - 1.5j) if cplx else -1.5
+    return {
+        "Identity": lambda: linop.Identity(shp, input_dtype=dt),
+        "ScaledIdentity": lambda: linop.ScaledIdentity(s, shp, input_dtype=dt),
+        "Diagonal": lambda: linop.Diagonal(snp.array(d)),
+        "CircularConvolve(bank,ndims=1)": lambda: linop.CircularConvolve(snp.array(hb), shp, ndims=1, input_dtype=dt),
+        "CircularConvolve(shared,ndims=1)": lambda: linop.CircularConvolve(snp.array(hs), shp, ndims=1, input_dtype=dt),
+        "CircularConvolve(2d)": lambda: linop.CircularConvolve(snp.array(h2), shp, input_dtype=dt),
+        "FiniteDifference(axis0)": lambda: linop.SingleAxisFiniteDifference(shp, input_dtype=dt, axis=0, circular=True),
+        "FiniteDifference(axis1)": lambda: linop.SingleAxisFiniteDifference(shp, input_dtype=dt, axis=1, circular=True),
+        "LinearOperator": lambda: linop.LinearOperator(input_shape=shp, eval_fn=lambda x: snp.array(d) * x[::-1, :], input_dtype=dt),
+        "Convolve(same)": lambda: linop.Convolve(snp.array(h2), shp, input_dtype=dt, mode="same"),
+    }
+
+
 def random_tree(rng, depth, n, dt, pool):
     """returns (nested description, builder)"""
     if depth == 0 or rng.random() < 0.25:
